@@ -30,6 +30,7 @@ def configs(tier):
             if kind != "mixed" and (na is not None or nh == 0):
                 continue            # explicit zero sizes are only meaningful for the purification RBM (pure-state limit)
             out.append({"part": "sizes", "kind": kind, "nv": nv, "nh": nh, "na": na})
+        out.append({"part": "sizes", "kind": kind, "nv": 2, "nh": 3, "na": 1 if kind == "mixed" else None, "gpu": True})
         out.append({"part": "module", "kind": kind})
         out.append({"part": "reinit", "kind": kind})
     for arch in ([(1, 1, 1), (2, 1, 2)] if tier == "quick" else [(1, 1, 1), (2, 1, 2), (2, 2, 1), (1, 2, 3)]):
@@ -67,8 +68,11 @@ def _sizes(ctx, cfg):
         t = real(*size, **k)
         draws.append(t.clone())
         return t
-    with mock.patch.object(torch, "randn", rec):
-        s = _cls(kind)(nv, nh, na, gpu=False) if kind == "mixed" else _cls(kind)(nv, nh, gpu=False)
+    gpu = bool(cfg.get("gpu", False))          # gpu=True is legal without a GPU (a warning, then the CPU is used): same construction
+    import warnings
+    with mock.patch.object(torch, "randn", rec), warnings.catch_warnings():
+        warnings.simplefilter("ignore")
+        s = _cls(kind)(nv, nh, na, gpu=gpu) if kind == "mixed" else _cls(kind)(nv, nh, gpu=gpu)
     enh = (nh if nh is not None else nv) if kind == "mixed" else (nh if nh else nv)
     ena = na if na is not None else nv
     nets = s.networks
